@@ -39,6 +39,9 @@ type Settings struct {
 	RateLimit     bool     `json:"rate_limit,omitempty"`
 	RateCapacity  float64  `json:"rate_capacity,omitempty"`
 	RateRefill    float64  `json:"rate_refill,omitempty"`
+	// SlowSource: the source takes finished seeds one at a time (unbuffered channel) and, once a stop has begun, only
+	// every five (virtual) seconds - a source busy flushing its own batches. The finisher then has to wait for it.
+	SlowSource bool `json:"slow_source,omitempty"`
 }
 
 // Finish is one message observed on the source's finish channel.
@@ -64,6 +67,9 @@ type Pipeline struct {
 	produced []*models.Item
 	stopRecv chan struct{}
 	recvWg   sync.WaitGroup
+	stopping atomic.Bool
+	// TrackedAtStop: the seeds the reactor still tracked when every stage had stopped (before the reactor itself is reset)
+	TrackedAtStop []string
 }
 
 // Start wires and starts the stages the way controler.startPipeline does (without watchers, API, consul, source).
@@ -148,6 +154,9 @@ func Start(s Settings, site Site, dir string) (*Pipeline, error) {
 		return nil, fmt.Errorf("postprocessor: %w", err)
 	}
 	p.finishCh = make(chan *models.Item, s.Workers)
+	if s.SlowSource {
+		p.finishCh = make(chan *models.Item)
+	}
 	p.produceCh = make(chan *models.Item, s.Workers)
 	if err := finisher.Start(postOut, p.finishCh, p.produceCh); err != nil {
 		return nil, fmt.Errorf("finisher: %w", err)
@@ -157,6 +166,13 @@ func Start(s Settings, site Site, dir string) (*Pipeline, error) {
 	go func() {
 		defer p.recvWg.Done()
 		for {
+			if p.S.SlowSource && p.stopping.Load() {
+				select {
+				case <-time.After(5 * time.Second):
+				case <-p.stopRecv:
+					return
+				}
+			}
 			select {
 			case it := <-p.finishCh:
 				f := Finish{Seq: p.Seq.Add(1), Item: it}
@@ -223,6 +239,7 @@ func (p *Pipeline) Tracked() []string { return reactor.GetStateTable() }
 
 // Stop stops the stages in the order of controler.stopPipeline and makes them startable again.
 func (p *Pipeline) Stop() {
+	p.stopping.Store(true)
 	reactor.Freeze()
 	preprocessor.Stop()
 	archiver.Stop()
@@ -232,6 +249,7 @@ func (p *Pipeline) Stop() {
 		seencheck.Close()
 	}
 	seencheck.VerifReset()
+	p.TrackedAtStop = reactor.GetStateTable()
 	reactor.Stop()
 	close(p.stopRecv)
 	p.recvWg.Wait()
